@@ -125,8 +125,10 @@ class Check:
             "coverage": cov, "assumptions": self.assumptions, "wall_s": round(wall, 1),
             "violations": len(self.violations),
         }
-        os.makedirs(os.path.join(VERIF, "evidence"), exist_ok=True)
-        with open(os.path.join(VERIF, "evidence", self.pid + ".json"), "w") as f:
+        # runs against a scratch copy of the repository (VERIF_REPO set) must not overwrite the evidence of /repo
+        evdir = os.path.join(VERIF, "evidence") if os.environ.get("VERIF_REPO", "/repo") == "/repo" else os.path.join(WORK, "evidence")
+        os.makedirs(evdir, exist_ok=True)
+        with open(os.path.join(evdir, self.pid + ".json"), "w") as f:
             json.dump(ev, f, indent=1, sort_keys=True)
             f.write("\n")
         for k in self.known_hits:
